@@ -309,3 +309,32 @@ package putsvc
 //@   property C24
 //@   callee (put.PostPlacementReplicator).HandlePostPlacement
 //@   requires [payload_is_a_copy_not_a_window_of_a_pooled_buffer] ownsItsPayload(a0)
+
+// ---- C25 (what an acknowledgement is): sendObject answers nil for a node only if that node took
+// the object - the local write, the relay, the replication request or the client PUT to the
+// remote node answered nil. The counting above (handleREPRule, applyECRule) counts these answers.
+//@ ghost pred nodeTookTheObject() bool
+//@ callrule c25_node_verdict in (*distributedTarget).sendObject
+//@   property C25
+//@   callee (*put.distributedTarget).writeObjectLocally, (put.Transport).SendReplicationRequestToNode, put.putObjectToNode, dynamic:*
+//@   defines err == nil ==> nodeTookTheObject()
+//@ func (*distributedTarget).sendObject
+//@   property C25
+//@   ensures [acknowledged_only_if_the_node_took_the_object] err == nil ==> nodeTookTheObject()
+
+// ---- C25 (MaxReplicas with PreferLocal: the rules are visited in ruleOrder): what is still to
+// come after position `from` is summed over the positions of the ORDER - every position is
+// mapped through getRuleIdx before a limit is read, and the sum grows by the limit of the mapped
+// rule (an EC rule without explicit limits counts one).
+//@ ghost field mappedRule(x int) int
+//@ ghost field positionsMapped(x int) int
+//@ callrule c25_position_mapped_to_its_rule in (*distributedTarget).saveObject$4
+//@   property C25
+//@   callee dynamic:*
+//@   assigns mappedRule, positionsMapped
+//@   requires [the_position_of_this_iteration_is_mapped] a0 == i
+//@   defines mappedRule(0) == result && positionsMapped(0) == old(positionsMapped(0)) + 1
+//@ func (*distributedTarget).saveObject$4
+//@   property C25
+//@   loop 1 iteration [every_position_is_mapped_through_the_order] positionsMapped(0) == old(positionsMapped(0)) + 1
+//@   loop 1 iteration [sum_grows_by_the_limit_of_the_mapped_rule] res == old(res) + ite(mappedRule(0) - len(deref(repRules)) >= 0, ite(ecLimits != nil, uint(ecLimits[mappedRule(0) - len(deref(repRules))]), 1), deref(repRules)[mappedRule(0)])
